@@ -42,6 +42,29 @@ mutual
         shapeIdsList_toGrpList gs]
 end
 
+mutual
+  /-- `add_group` adds an empty group: no path element appears or disappears -/
+  theorem rawGroup_allPaths (nm : String) : (parent : List String) → (t : DGrp) →
+      allPaths (rawGroup nm parent t) = allPaths t
+    | [], .mk n ps kids => by
+      have h : ∀ l : List DGrp, allPathsList (l ++ [.mk nm [] []]) = allPathsList l := by
+        intro l
+        induction l with
+        | nil => simp only [List.nil_append, allPathsList, allPaths, List.append_nil]
+        | cons g gs ih => simp only [List.cons_append, allPathsList, ih]
+      simp only [rawGroup, allPaths, h]
+    | p :: rest, .mk n ps kids => by
+      simp only [rawGroup, allPaths, rawGroupKids_allPaths nm p rest kids]
+  theorem rawGroupKids_allPaths (nm p : String) (rest : List String) : (kids : List DGrp) →
+      allPathsList (rawGroupKids nm p rest kids) = allPathsList kids
+    | [] => by simp only [rawGroupKids]
+    | k :: ks => by
+      simp only [rawGroupKids]
+      by_cases h : k.name = p
+      · simp only [h, if_true, allPathsList, rawGroup_allPaths nm rest k]
+      · simp only [h, if_false, allPathsList, rawGroupKids_allPaths nm p rest ks]
+end
+
 /-- `Document.paths()` terminates and returns exactly the path elements of the tree, each once -/
 theorem docPaths_perm (t : DGrp) : ∃ ps, docPaths t = some ps ∧ ps.Perm (allPaths t) := by
   obtain ⟨res, hres, hperm⟩ :=
@@ -134,7 +157,7 @@ theorem addPath_visible (pid : Nat) (names : List String) (t : DGrp) :
 
 /-- the path ids added by a history -/
 def addedPaths (ops : List Op) : List Nat :=
-  ops.filterMap (fun o => match o with | .addPath _ pid => some pid | .addGroup _ => none)
+  ops.filterMap (fun o => match o with | .addPath _ pid => some pid | _ => none)
 
 theorem run_allPaths (ops : List Op) : ∀ t : DGrp,
     (allPaths (run t ops)).Perm (allPaths t ++ addedPaths ops) := by
@@ -157,13 +180,23 @@ theorem run_allPaths (ops : List Op) : ∀ t : DGrp,
       rw [e]
       simp only [applyOp, addGroup_allPaths]
       exact List.Perm.refl _
+    | rawGroup parent nm =>
+      have e : addedPaths (Op.rawGroup parent nm :: ops) = addedPaths ops := rfl
+      rw [e]
+      simp only [applyOp]
+      split <;> rw [rawGroup_allPaths] <;> exact List.Perm.refl _
+    | query names =>
+      have e : addedPaths (Op.query names :: ops) = addedPaths ops := rfl
+      rw [e]
+      simp only [applyOp]
+      exact List.Perm.refl _
 
-/-- after any history of `add_path` / `get_or_add_group`, `paths()` returns the original paths plus
+/-- after any history of `add_path` / `get_or_add_group` / `add_group` / queries, `paths()` returns the original paths plus
 exactly the added ones -/
 theorem history_paths (t : DGrp) (ops : List Op) :
     ∃ ps, docPaths (run t ops) = some ps ∧
       ps.Perm (allPaths t ++ ops.filterMap
-        (fun o => match o with | .addPath _ pid => some pid | .addGroup _ => none)) := by
+        (fun o => match o with | .addPath _ pid => some pid | _ => none)) := by
   obtain ⟨ps, hps, hperm⟩ := docPaths_perm (run t ops)
   exact ⟨ps, hps, hperm.trans (run_allPaths ops t)⟩
 
